@@ -505,12 +505,14 @@ struct Expect {
     std::vector<char> kind;             // 'v' explicit value, 'd' defaulted, 'c' context dependent, 'x' not comparable (factor unknown to the reference)
     std::vector<Aff> ref;               // reference dimension (active system) per element
     std::vector<bool> unverified;
+    bool mixed = false;                 // default pattern imposed by part m; kind 'D' = defaulted by the pattern
 };
 struct RecLine { std::string text; std::vector<Expect> ex; };
 
 static std::string num17(double x) { return vf::fmt17(x); }
 
 static int g_variant = 0;      // value set: 0 positive O(1), 1 small negative, 2 large
+static const Opm::ParserItem* g_mix_item = nullptr; static uint64_t g_mix_mask = 0;   // part m: default pattern imposed on one ALL-size item
 static RecLine gen_record(const Opm::ParserRecord& rec, int sys, bool defaults, int& ordinal) {
     RecLine L; L.text = " ";
     for (const auto& it : rec) {
@@ -525,8 +527,11 @@ static RecLine gen_record(const Opm::ParserRecord& rec, int sys, bool defaults, 
         if (nd == 0) { L.text += all ? "0.5 0.5 " : "0.5 "; continue; }
         const size_t nv = !all ? 1 : (nd == 1 ? 3 : 2 * nd);
         Expect e; e.item = it.name(); e.uda = tt == Opm::type_tag::uda;
-        const bool dflt = defaults && it.hasDefault();
+        const bool mix = g_mix_item == &it;
+        e.mixed = mix;
+        const bool dflt = !mix && defaults && it.hasDefault();
         double dv = 0;
+        const double mixdv = (mix && it.hasDefault() && !e.uda) ? it.getDefault<double>() : 0.0;   // no default in the keyword definition: the parser stores 0 with status empty_default
         if (dflt) {
             if (e.uda) { const auto& u = it.getDefault<Opm::UDAValue>(); dv = u.is<double>() ? u.get<double>() : std::numeric_limits<double>::quiet_NaN(); }
             else dv = it.getDefault<double>();
@@ -538,6 +543,7 @@ static RecLine gen_record(const Opm::ParserRecord& rec, int sys, bool defaults, 
             if (!act.ok || act.offset_in_composite) { e.kind.push_back('x'); e.si.push_back(0); e.raw.push_back(0.5); if (!dflt) L.text += "0.5 "; continue; }
             if (act.nan) { e.kind.push_back('c'); e.si.push_back(0); e.raw.push_back(0.5); if (!dflt) L.text += "0.5 "; continue; }
             if (dflt) { e.kind.push_back('d'); e.si.push_back(met.to_si(dv)); e.raw.push_back(dv); continue; }
+            if (mix && ((g_mix_mask >> j) & 1)) { e.kind.push_back('D'); e.si.push_back(met.to_si(mixdv)); e.raw.push_back(mixdv); e.ref.back() = met; L.text += "1* "; continue; }
             double v = 0.75 + 0.5 * ordinal + 0.125 * j;
             if (g_variant == 1) v *= -1.0e-4; else if (g_variant == 2) v *= 3.0e7;
             if (act.o != 0) v += 300.0;
@@ -689,6 +695,140 @@ static void case_d(const std::string& kwname, int sys, bool defaults, const std:
         std::string w2; long m = check_keyword(kwname, 0, defaults, c, w2);
         if (m >= 0) R->violation("C02:deck:" + kwname + ":parse:" + SYSN[sys], kwname + ": generated instance is accepted in METRIC but not in " + SYSN[sys] + ": " + why, rp(c));
     }
+}
+
+// ================================================================ part m ====
+// Mixed default status inside one multi-valued item: the lazy SI <-> deck-unit flip must use the
+// status of element i (not of element i % ndims) to choose between the active and the default dimension.
+struct MixExp { std::vector<double> raw, si; std::vector<char> dfl; std::vector<Aff> ref; };   // ref: dimension that applies to the element
+
+// both access orders on private copies of the parsed item
+static long check_orders(const Opm::DeckItem& di, const MixExp& E, int sys, const std::string& where, const std::string& c) {
+    long n = 0;
+    if (di.data_size() != E.raw.size()) { R->violation(std::string("C02:deck-lazy:mixed:count:") + SYSN[sys], where + ": parsed " + std::to_string(di.data_size()) + " elements, deck has " + std::to_string(E.raw.size()), rp(c)); return 0; }
+    auto judge = [&](const char* order, const char* what, const std::vector<double>& got, bool si) {
+        for (size_t i = 0; i < got.size(); ++i) {
+            R->evaluations++; ++n;
+            const Aff& a = E.ref[i];
+            const double want = si ? E.si[i] : E.raw[i];
+            const double tol = si ? 1e-12 * (std::fabs(want) + std::fabs(a.o)) : 1e-12 * (std::fabs(want) + std::fabs(a.o / a.s));
+            if (!(std::fabs(got[i] - want) <= tol)) {
+                std::string pat; for (char d : E.dfl) pat += d ? 'D' : 'v';
+                R->violation(std::string("C02:deck-lazy:mixed:") + order + ":" + (si ? "si" : "raw") + ":" + SYSN[sys],
+                    where + " pattern " + pat + " element " + std::to_string(i) + (E.dfl[i] ? " (defaulted)" : " (explicit)") + ", " + what + ": got " + vf::fmt17(got[i]) + ", want " + vf::fmt17(want) +
+                    (si ? " SI" : " (deck value)") + " [D = defaulted, v = explicit; defaulted elements convert with the default (METRIC) dimension, explicit ones with the active one]", rp(c));
+                return;
+            }
+        }
+    };
+    {   // SI first, then raw, then SI again
+        Opm::DeckItem cp = di;
+        std::vector<double> s1 = cp.getSIDoubleData(); std::vector<double> r1 = cp.getData<double>(); std::vector<double> s2 = cp.getSIDoubleData(); std::vector<double> r2 = cp.getData<double>();
+        judge("si-first", "1st SI read", s1, true); judge("si-first", "raw read after SI", r1, false); judge("si-first", "2nd SI read", s2, true); judge("si-first", "2nd raw read", r2, false);
+        std::string o = where; for (double x : r1) o += ":" + vf::fmt17(x); R->observe(o);
+    }
+    {   // raw first, then SI, then raw, then SI
+        Opm::DeckItem cp = di;
+        std::vector<double> r1 = cp.getData<double>(); std::vector<double> s1 = cp.getSIDoubleData(); std::vector<double> r2 = cp.getData<double>(); std::vector<double> s2 = cp.getSIDoubleData();
+        judge("raw-first", "1st raw read", r1, false); judge("raw-first", "SI read after raw", s1, true); judge("raw-first", "raw read after SI", r2, false); judge("raw-first", "2nd SI read", s2, true);
+    }
+    return n;
+}
+
+static std::vector<uint64_t> mix_patterns(size_t nv, size_t nd) {
+    std::vector<uint64_t> p;
+    const uint64_t all = nv >= 64 ? ~0ull : ((1ull << nv) - 1);
+    if (nv <= 6) { for (uint64_t m = 0; m <= all; ++m) p.push_back(m); return p; }
+    std::set<uint64_t> s = {0, all};
+    for (size_t i = nd; i < nv && i < 64; ++i) { size_t j = i % nd; s.insert(1ull << j); s.insert(1ull << i); s.insert(all ^ (1ull << j)); s.insert(all ^ (1ull << i)); s.insert((1ull << j) | (1ull << ((i + 1) % nv))); }
+    p.assign(s.begin(), s.end());
+    return p;
+}
+
+static void case_m(const std::string& kwname, int sys, const std::string& c) {
+    const auto& kw = KW(kwname);
+    const size_t nrec = std::distance(kw.begin(), kw.end());
+    for (size_t ri = 0; ri < nrec; ++ri) for (const auto& it : kw.getRecord(ri)) {
+        if (it.dataType() != Opm::type_tag::fdouble || it.sizeType() != Opm::ParserItem::item_size::ALL || it.dimensions().empty()) continue;
+        const auto& dims = it.dimensions(); const size_t nd = dims.size(), nv = nd == 1 ? 3 : 2 * nd;
+        bool usable = true;
+        for (auto& d : dims) { Aff a = REF.dim(sys, d, true); if (!a.ok || a.nan || a.offset_in_composite) usable = false; }
+        if (!usable) { R->count("m_items_not_comparable"); continue; }
+        bool any = false;
+        for (uint64_t mask : mix_patterns(nv, nd)) {
+            g_mix_item = &it; g_mix_mask = mask;
+            Inst I = instantiate(kw, g_deckname[kwname], sys, false);
+            g_mix_item = nullptr;
+            if (!I.ok) break;
+            Opm::ErrorGuard eg; std::unique_ptr<Opm::Deck> deck;
+            try { deck = std::make_unique<Opm::Deck>(g_parser->parseString(I.text, lenient_context(), eg)); eg.clear(); }
+            catch (const std::exception& e) { eg.clear(); R->count("m_instances_rejected"); if (mask == 0) break; R->notes["m_rejected:" + kwname + ":" + it.name()] = std::string(e.what()).substr(0, 160); continue; }
+            if (deck->size() != I.nkw) { R->count("m_instances_rejected"); R->notes["m_rejected:" + kwname + ":" + it.name()] = "keyword count"; continue; }
+            const auto& dk = (*deck)[I.nkw - 1];
+            std::vector<const Opm::DeckRecord*> drs;
+            for (size_t j = 0; j < dk.size(); ++j) { const auto& r = dk.getRecord(j); bool full = r.size() > 0; for (const auto& x : r) if (x.data_size() == 0) full = false; if (full || !(kw.isTableCollection() || kw.isDoubleRecordKeyword())) drs.push_back(&r); }
+            if (drs.size() != I.recs.size()) { R->count("m_instances_rejected"); R->notes["m_rejected:" + kwname + ":" + it.name()] = "record count " + std::to_string(drs.size()) + " != " + std::to_string(I.recs.size()) + " (an all-defaulted row looks like a table separator)"; continue; }
+            for (size_t j = 0; j < drs.size(); ++j) for (const auto& e : I.recs[j].ex) {
+                if (!e.mixed || !drs[j]->hasItem(e.item)) continue;
+                MixExp E; E.raw = e.raw; E.si = e.si; E.ref = e.ref; for (char k : e.kind) E.dfl.push_back(k == 'D');
+                R->count("m_element_reads", check_orders(drs[j]->getItem(e.item), E, sys, kwname + " record " + std::to_string(j) + " item " + e.item + " (" + SYSN[sys] + ")", c));
+                R->count("m_patterns"); any = true;
+            }
+        }
+        if (any && sys == 0) R->count("m_items");
+    }
+}
+
+// hand-written records: defaults in different columns of different rows, repeat counts
+struct Hand { const char* kw; const char* pre; const char* toks; const char* post; size_t rec; const char* item; };
+static const Hand HANDS[] = {
+    {"MINPVV",   " ", "2*0.5 1* 0.25 2*", " /\n", 0, "data"},
+    {"MINPVV",   " ", "1* 0.5 0.25 3*0.125 1*", " /\n", 0, "data"},
+    {"ENPCVD",   " ", "1000 1* 2.0 2000 0.5 1* 3000 1* 1*", " /\n", 0, "DATA"},
+    {"ENPCVD",   " ", "1000 0.5 1* 2000 1* 2.5", " /\n", 0, "DATA"},
+    {"ENKRVD",   " ", "1000 1* 0.5 1* 1* 0.7 1* 1* 2000 0.4 1* 1* 0.6 1* 1* 0.3", " /\n", 0, "DATA"},
+    {"ENKRVD",   " ", "1000 0.9 6*  2000 1* 0.8 2* 0.3 2*", " /\n", 0, "DATA"},
+    {"PVTO",     " 0.5 ", "100 1.1 1.2 200 1* 1.3 300 1.05 1*", " /\n/\n", 0, "DATA"},
+    {"PVTG",     " 100 ", "0.001 1* 0.02 0 0.011 1*", " /\n/\n", 0, "DATA"},
+    {"SWOF",     " ", "0.2 0 1 1* 0.6 1* 0.2 0.1 1.0 1 1* 0", " /\n", 0, "DATA"},
+    {"SGOF",     " ", "0 0 1 0 0.4 1* 1* 0.3 0.8 1 0 1*", " /\n", 0, "DATA"},
+    {"SPECHEAT", " ", "10 1* 2.0 1* 100 1.5 1* 2.5 1* 1.7 2.2 1*", " /\n", 0, "DATA"},
+    {"RTEMPVD",  " ", "1000 1* 2000 60 1* 80", " /\n", 0, "DATA"},
+    {"PVDO",     " ", "100 1.2 1* 200 1* 1.3 300 1.1 1.4", " /\n", 0, "DATA"},
+    {"PVDG",     " ", "100 1* 0.015 200 0.006 1* 1* 0.004 0.025", " /\n", 0, "DATA"},
+    {"RSVD",     " ", "1000 1* 2000 0.1 1* 0.2", " /\n", 0, "DATA"},
+    {"PERMX",    " ", "100 1* 2*50 2* 25", " /\n", 0, "data"},
+    {"TSTEP",    " ", "1 1* 2*10 1*", " /\n", 0, "step_list"},
+};
+
+static void case_h(int hi, int sys, const std::string& c) {
+    const Hand& H = HANDS[hi];
+    const auto& kw = g_parser->getKeyword(H.kw);
+    const auto& it = kw.getRecord(H.rec).get(H.item);
+    const auto& dims = it.dimensions(); const size_t nd = dims.size();
+    if (nd == 0) throw std::runtime_error(std::string("hand case without dimension: ") + H.kw);
+    const double dv = it.hasDefault() ? it.getDefault<double>() : 0.0;
+    MixExp E;
+    for (auto& t : words(H.toks)) {
+        size_t st = t.find('*'); size_t cnt = 1; bool dfl = false; double v = 0;
+        if (st == std::string::npos) v = std::strtod(t.c_str(), nullptr);
+        else { cnt = std::atoi(t.substr(0, st).c_str()); if (st + 1 == t.size()) dfl = true; else v = std::strtod(t.c_str() + st + 1, nullptr); }
+        for (size_t k = 0; k < cnt; ++k) {
+            const std::string& dim = dims[E.raw.size() % nd];
+            Aff act = REF.dim(sys, dim, true), met = REF.dim(0, dim, true);
+            if (!act.ok || act.nan || act.offset_in_composite) throw std::runtime_error(std::string("hand case with non-comparable dimension: ") + H.kw);
+            E.dfl.push_back(dfl); E.raw.push_back(dfl ? dv : v); E.si.push_back(dfl ? met.to_si(dv) : act.to_si(v)); E.ref.push_back(dfl ? met : act);
+        }
+    }
+    const std::string text = std::string(SYSN[sys]) + "\n" + H.kw + "\n" + H.pre + H.toks + H.post;
+    Opm::ErrorGuard eg;
+    try {
+        auto deck = g_parser->parseString(text, lenient_context(), eg); eg.clear();
+        const auto& di = deck[H.kw].back().getRecord(H.rec).getItem(H.item);
+        R->count("m_element_reads", check_orders(di, E, sys, std::string("hand-written ") + H.kw + " '" + H.toks + "' item " + H.item + " (" + SYSN[sys] + ")", c));
+        R->count("m_hand_cases");
+        if (sys == 1 && hi == 2 && R->samples.size() < 8) R->sample_str(c + " :: " + text);
+    } catch (const std::exception& e) { eg.clear(); R->violation(std::string("C02:deck-lazy:mixed:hand-rejected:") + H.kw, std::string("hand-written deck is rejected: ") + std::string(e.what()).substr(0, 200) + " :: " + text, rp(c)); }
 }
 
 // curated annotation table
@@ -991,6 +1131,8 @@ static void do_case(const std::string& c) {
     else if (w[0] == "c2" && w.size() == 3) case_c2(sys_of(w[1]), w[2], c);
     else if (w[0] == "o" && w.size() == 3) case_o(sys_of(w[1]), std::atoi(w[2].c_str()), c);
     else if (w[0] == "d" && w.size() == 4) { g_variant = w[3].rfind("values", 0) == 0 && w[3].size() > 6 ? std::atoi(w[3].c_str() + 6) : 0; case_d(w[1], sys_of(w[2]), w[3] == "defaults", c); }
+    else if (w[0] == "m" && w.size() == 3) case_m(w[1], sys_of(w[2]), c);
+    else if (w[0] == "h" && w.size() == 3) case_h(std::atoi(w[1].c_str()), sys_of(w[2]), c);
     else if (w[0] == "n") case_n(c);
     else if (w[0] == "e") case_e(c);
     else throw std::runtime_error("bad case string: " + c);
@@ -1007,6 +1149,7 @@ int main(int argc, char** argv) {
                "every measure and every named dimension of the 4 deck systems vs. the exact physical definition in data/C02_units.ref (rel 1e-12); "
                "every dimension string of the keyword catalogue and every A*B, A/B of named dimensions x 5 systems (parse = product/quotient; offsets rejected in composites); "
                "every catalogue keyword x every double/UDA item with a dimension x 4 systems x {explicit values, defaulted}: SI value -> deck units by reference factor -> 17 digits -> real parser -> getSIDouble (rel 1e-12), raw/SI lazy flip; "
+               "every multi-valued (size ALL) double item with a dimension x 4 systems x default patterns over its elements (all subsets for <= 6 elements, else patterns in which element i and element i % ndims differ) + hand-written ENPCVD/ENKRVD/MINPVV/PVTO/... records: SI->raw->SI and raw->SI->raw->SI on copies of the parsed item, raw = printed deck value, SI = reference conversion with the active (explicit) or default (defaulted) dimension; "
                "curated (keyword,item)->dimension table vs. annotations; one 3x3x3 SI model printed in 4 systems (Deck, TableManager, FieldPropsManager, grid, Schedule incl. MSW; rel 1e-10); "
                "data::Solution / RestartValue convertFromSI/convertToSI for every measure x 4 systems. distinct = distinct observed conversion results";
     run.assumptions = {
@@ -1033,6 +1176,14 @@ int main(int argc, char** argv) {
             go("d " + kw + " " + SYSN[s] + " values"); go("d " + kw + " " + SYSN[s] + " defaults");
             if (run.thorough()) { go("d " + kw + " " + SYSN[s] + " values1"); go("d " + kw + " " + SYSN[s] + " values2"); }
         }
+    }
+    for (int hi = 0; hi < (int)(sizeof HANDS / sizeof HANDS[0]); ++hi) for (int s = 0; s < 4; ++s) go("h " + std::to_string(hi) + " " + SYSN[s]);
+    for (auto& kw : g_keywords) {
+        const auto& k = KW(kw); bool has = false;
+        if (!k.hasDimension() || k.isCodeKeyword() || k.rawStringKeyword()) continue;
+        for (const auto& rec : k) for (const auto& it : rec) if (it.dataType() == Opm::type_tag::fdouble && it.sizeType() == Opm::ParserItem::item_size::ALL && !it.dimensions().empty()) has = true;
+        if (!has) continue;
+        for (int s = 0; s < 4; ++s) go("m " + kw + " " + SYSN[s]);
     }
     if (run.shard == 0) {
         run.count("catalogue_keywords", (long long)g_keywords.size());
